@@ -151,6 +151,29 @@ fn nap_main(env: &mut VEnv, _args: Vec<Field>) -> BuiltinFuture<'_> {
     })
 }
 
+/// Wraps the simulated OS's executor so that the `fail_at`-th fork fails
+/// (fault injection: "process creation fails at a particular point").
+#[derive(Debug)]
+struct FlakyExecutor {
+    inner: std::rc::Rc<dyn yash_env::system::r#virtual::Executor>,
+    count: std::cell::Cell<usize>,
+    fail_at: usize,
+}
+
+impl yash_env::system::r#virtual::Executor for FlakyExecutor {
+    fn spawn(
+        &self,
+        task: std::pin::Pin<Box<dyn std::future::Future<Output = ()>>>,
+    ) -> Result<(), Box<dyn std::error::Error>> {
+        let n = self.count.get();
+        self.count.set(n + 1);
+        if n == self.fail_at {
+            return Err("injected fork failure".into());
+        }
+        self.inner.spawn(task)
+    }
+}
+
 fn snap_coq(s: &Snap) -> String {
     let strs = |l: &Vec<String>| coq::list(&l.iter().map(|x| coq::s(x)).collect::<Vec<_>>());
     let traps: Vec<String> = s
@@ -217,7 +240,7 @@ fn wrap(kind: usize, body: &str, long: bool) -> String {
     }
 }
 
-const SETUPS: [&str; 22] = [
+const SETUPS: [&str; 24] = [
     "v1=one",
     "v2='two words'; export v2",
     "v3=three; readonly v3",
@@ -240,6 +263,8 @@ const SETUPS: [&str; 22] = [
     "exec 3>/tmp/out3",
     "exec 4</tmp/in4",
     "exec 5>&1",
+    "exec 20>/tmp/out20",
+    "ulimit -n 14",
 ];
 
 const MUTATORS: [&str; 38] = [
@@ -299,6 +324,10 @@ struct Scenario {
     /// and blocking points (`nap`) between the mutators; the parent takes
     /// snapshots while the child is under way
     sched: u64,
+    /// fault injection: the fork of the subshell under test fails (that ends the
+    /// non-interactive shell; its EXIT trap takes the last snapshot); only
+    /// before/after are judged
+    fork_fails: bool,
 }
 
 fn script(sc: &Scenario) -> String {
@@ -318,7 +347,13 @@ fn script(sc: &Scenario) -> String {
         // asynchronous list: the parent goes on while the child runs
         test = test.replace("& wait", "& snap mid1; nap; snap mid2; nap; nap; snap mid3; wait");
     }
-    if sc.nested_in_function {
+    if sc.fork_fails {
+        // The shell is not interactive, so the failed fork ends it; the EXIT
+        // trap takes the parent's last snapshot.
+        inner.push("trap 'snap after' EXIT".to_string());
+        inner.push("snap before".to_string());
+        inner.push(test);
+    } else if sc.nested_in_function {
         inner.push(format!("tester() {{ snap before; {test}; snap after; }}"));
         inner.push("tester".to_string());
     } else {
@@ -326,7 +361,7 @@ fn script(sc: &Scenario) -> String {
         inner.push(test);
         inner.push("snap after".to_string());
     }
-    if sc.outer_subshell {
+    if sc.outer_subshell && !sc.fork_fails {
         // aliases defined on earlier lines of the same compound command are not
         // yet in effect when it is parsed; that does not matter here.
         lines.push("(".to_string());
@@ -343,8 +378,18 @@ fn run(sc: &Scenario, w: &mut CasesWriter) {
     let tty = sc.tty;
     SNAPS.with(|v| v.borrow_mut().clear());
     OFD_IDS.with(|m| m.borrow_mut().clear());
+    let fork_fails = sc.fork_fails;
     let setup = move |env: &mut VEnv, state: &State| {
         STATE.with(|s| *s.borrow_mut() = Some(state.clone()));
+        if fork_fails {
+            // the set-up lines fork nothing, so fork number 0 is the subshell under test
+            let inner = state.borrow().executor.clone().unwrap();
+            state.borrow_mut().executor = Some(std::rc::Rc::new(FlakyExecutor {
+                inner,
+                count: std::cell::Cell::new(0),
+                fail_at: 0,
+            }));
+        }
         if tty {
             yash_env::test_helper::stub_tty(state);
         }
@@ -353,8 +398,9 @@ fn run(sc: &Scenario, w: &mut CasesWriter) {
         // mkdir stand-in
         env.builtins.insert("mkdir", Builtin::new(Type::Mandatory, mkdir_main));
     };
-    let opts = RunOpts { argv: vec!["-c".into(), text.clone()], ..Default::default() };
-    let out = if sc.sched == 0 {
+    let argv = vec!["-c".into(), text.clone()];
+    let opts = RunOpts { argv, ..Default::default() };
+    let out = if sc.sched == 0 || sc.fork_fails {
         run_shell(opts, setup).0
     } else {
         let r = Rng::new(sc.sched);
@@ -383,6 +429,45 @@ fn run(sc: &Scenario, w: &mut CasesWriter) {
     w.count(&format!("kind:{}", KINDS[sc.kind]));
     for m in &sc.mutators {
         w.count(&format!("mut:{}", MUTATORS[*m].split_whitespace().next().unwrap()));
+    }
+    if sc.fork_fails {
+        w.count("fork-failure-injected");
+        if let (Some(before), Some(after)) = (before.clone(), after.clone()) {
+            // The child never ran.  The case is encoded with the parent's own
+            // snapshot as the entry view (kind KParen) and a marked end state,
+            // so that only "parent before = parent after" is judged.
+            // stand-in for the entry view: the parent's state with command
+            // traps reset, as a real child would see it
+            let mut fake_entry = before.clone();
+            for t in fake_entry.traps.iter_mut() {
+                if t.1 == 2 {
+                    *t = (t.0.clone(), 0, String::new(), 0);
+                }
+            }
+            let mut marked = fake_entry.clone();
+            marked.vars.push("<fork failed>".into());
+            let term = format!(
+                "(KParen, {}, {}, {}, {})",
+                snap_coq(&before),
+                snap_coq(&fake_entry),
+                snap_coq(&marked),
+                snap_coq(&after)
+            );
+            let json = format!(
+                "{{\"script\":{},\"fault\":\"fork number 0 fails; the EXIT trap takes the last snapshot\",\"before\":{},\"after\":{},\"stderr\":{}}}",
+                json_str(&text),
+                snap_json(&before),
+                snap_json(&after),
+                json_str(&out.stderr)
+            );
+            w.push(&term, &json, &[], Some(format!("{text}#forkfail")));
+        } else {
+            if std::env::var("C08_DEBUG").is_ok() {
+                eprintln!("forkfail: labels={:?} status={} stderr={} panicked={:?} deadlock={} script=\n{}", snaps.iter().map(|(l,p,_)| format!("{l}@{p}")).collect::<Vec<_>>(), out.status, out.stderr, out.panicked, out.deadlock, text);
+            }
+            w.count("skipped:missing-snapshot");
+        }
+        return;
     }
     let (Some(before), Some(entry), Some(after)) = (before, entry, after) else {
         // e.g. the body aborted before its first snapshot: not a case we can judge
@@ -501,6 +586,7 @@ fn main() {
                         outer_subshell: (kind + m) % 3 == 0,
                         tty: (kind + m) % 5 == 0,
                         sched: if (kind + m) % 2 == 1 { (kind * 100 + m) as u64 + 1 } else { 0 },
+                        fork_fails: false,
                     },
                     &mut w,
                 );
@@ -518,6 +604,26 @@ fn main() {
                     outer_subshell: m % 3 == 0,
                     tty: m % 5 == 0,
                     sched: if m % 2 == 1 { m as u64 + 1 } else { 0 },
+                    fork_fails: false,
+                },
+                &mut w,
+            );
+        }
+    }
+    // fault injection: the fork of the subshell fails, every kind, two parent states
+    for kind in 0..KINDS.len() {
+        for (i, setups) in [rich.clone(), vec![0usize, 4, 19]].into_iter().enumerate() {
+            run(
+                &Scenario {
+                    kind,
+                    setups,
+                    mutators: vec![0],
+                    nested_in_function: i == 1,
+                    long: kind % 2 == 0,
+                    outer_subshell: false,
+                    tty: false,
+                    sched: 0,
+                    fork_fails: true,
                 },
                 &mut w,
             );
@@ -539,6 +645,7 @@ fn main() {
                 outer_subshell: r.chance(1, 3),
                 tty: r.chance(1, 3),
                 sched: if r.chance(1, 2) { 1 + r.below(1_000_000) as u64 } else { 0 },
+                fork_fails: false,
             },
             &mut w,
         );
